@@ -12,7 +12,7 @@ Ops == \/ \E sp \in {"R", "U"}, l \in Levels, s \in Schemes : Configure(sp, l, s
        \/ \E f \in Families : Decorate(f) /\ Rec(<<"decorate", f>>)
        \/ \E f \in Families : SetMlxc(f) /\ Rec(<<"set_mlxc", f>>)
        \/ \E l \in Levels, s \in Schemes : SetGridAttr(l, s) /\ Rec(<<"grid_attr", l, s>>)
-       \/ Build /\ Rec(<<"build">>)
+       \/ \E wm \in BOOLEAN : Build(wm) /\ Rec(<<"build", wm>>)
        \/ InitGrids /\ Rec(<<"init_grids">>)
        \/ \E m \in Mols : Reset(m) /\ Rec(<<"reset", m>>)
        \/ DensityFit /\ Rec(<<"density_fit">>)
